@@ -433,7 +433,11 @@ func (sr *sessRun) play(ls *lib.Livesim) {
 			go func() { done <- ls.Do("GET", sr.apiPath("/step"), nil, nil) }()
 			select {
 			case r := <-done:
-				eo.Returned, eo.Status = true, r.Status
+				// 200: the session took the step; 410 (since fix 2d98cef): it did not within 2 s
+				eo.Returned, eo.Status = r.Status == 200, r.Status
+				if r.Status != 200 {
+					break
+				}
 				q, mw := quiet, maxWait
 				if e.SlowMS > 0 {
 					q += time.Duration(e.SlowMS) * time.Millisecond
@@ -467,7 +471,12 @@ func (sr *sessRun) play(ls *lib.Livesim) {
 		from = n
 		sr.out.Events = append(sr.out.Events, eo)
 	}
+	// the session goroutine marks itself stopped a moment after its last upload returned
 	st, rep := app.VerifC16IngesterState(ls.Srv, sr.out.IngestID)
+	for deadline := time.Now().Add(400 * time.Millisecond); st == 1 && time.Now().Before(deadline); {
+		time.Sleep(5 * time.Millisecond)
+		st, rep = app.VerifC16IngesterState(ls.Srv, sr.out.IngestID)
+	}
 	sr.out.Final, sr.out.Report = st, rep
 }
 
